@@ -60,6 +60,7 @@ def case_strategy():
         'gyro': model_strategy(), 'accel': model_strategy(),
         'sensors': st.lists(sensor, min_size=1, max_size=3, unique_by=lambda s: s['cls']),
         'sd_exp': st.floats(-2.0, 2.0),
+        't0': st.sampled_from([0.0, 0.0, 1000.5, -30.0]),
         'sub': st.integers(0, 2 ** 31 - 1),
     })
 
@@ -103,11 +104,12 @@ class Scenario:
         T, hz = case['T'], case['rate_hz']
         dt = 1.0 / hz
         n = int(round(T * hz))
-        t = dt * np.arange(1, n + 1)
+        t0 = case.get('t0', 0.0)
+        t = t0 + dt * np.arange(1, n + 1)
         crs = np.radians(case['heading'])
         v = case['speed']
         pva = pd.Series([case['lat'], case['lon'], case['alt'], v * np.cos(crs), v * np.sin(crs), 0.0,
-                         case['roll'], case['pitch'], case['heading']], index=TRAJ, name=0.0)
+                         case['roll'], case['pitch'], case['heading']], index=TRAJ, name=t0)
         C0 = np.asarray(ROT.dcm_from_rph(pva[EC.RPH].values.astype(float)), float)
         g = float(W.gravity(case['lat'], case['alt']))
         w = 0.03 * np.column_stack([np.sin(0.3 * t + 0.2), np.cos(0.2 * t), np.sin(0.25 * t + 1.0)])
@@ -134,7 +136,7 @@ class Scenario:
             err['down'] = 0.0
             err['VD'] = 0.0
         start = sim.perturb_pva(pva, err)
-        start.name = 0.0
+        start.name = t0
         self.computed = strapdown.Integrator(start, wa).integrate(inc)
         times = np.asarray(self.nominal.index, float)
         self.times = times
